@@ -10,8 +10,10 @@ QDirLists == { <<"A">>, <<"A", "B">>, <<"B", "A">>, <<"A", "A">>, <<>> }
 QContents == { Ok("k1", {"x"}, 1), Ok("k1", {"y"}, 1), Ok("k1", {"x", "y"}, 1), Ok("k2", {"x"}, 1), Bad("syntax") }
 QNoise    == { Ok("k1", {"x", "y"}, 1) }
 QOrder    == << "a.json", "b.yaml", "n.txt" >>
+\* "pad": the name of a model device with white space around it (not a qualified name: never resolves)
 QTokens   == { [t |-> "q", kind |-> "k1", d |-> "x"], [t |-> "q", kind |-> "k1", d |-> "y"],
-               [t |-> "unk", kind |-> "", d |-> ""], [t |-> "bad", kind |-> "", d |-> ""] }
+               [t |-> "unk", kind |-> "", d |-> ""], [t |-> "bad", kind |-> "", d |-> ""],
+               [t |-> "pad", kind |-> "k1", d |-> "x"] }
 QRequests == { <<a>> : a \in QTokens } \cup { <<a, b>> : a \in QTokens, b \in QTokens }
 
 \* requests for random histories (few, so that Refresh is taken often)
@@ -19,7 +21,9 @@ SRequests == { <<[t |-> "q", kind |-> "k1", d |-> "x"], [t |-> "unk", kind |-> "
                <<[t |-> "q", kind |-> "k1", d |-> "y"], [t |-> "q", kind |-> "k2", d |-> "x"]>> }
 
 \* history contents: a second version of a content so that a rewrite is visible
-HContents == QContents \cup { Ok("k1", {"x"}, 2), Bad("semantic"), Bad("empty"), Bad("dangling") }
+Lnk(kind, ds, v) == [k |-> "linkok", kind |-> kind, ds |-> ds, v |-> v]
+HContents == QContents \cup { Ok("k1", {"x"}, 2), Bad("semantic"), Bad("empty"), Bad("dangling"), Lnk("k1", {"x"}, 1),
+                              Lnk("k1", {"y"}, 2), Bad("linkdir"), Bad("dirent") }
 
 \* thorough: 3 directories, 3 kinds, more faults
 TDirLists == { <<"A">>, <<"A", "B">>, <<"B", "A">>, <<"A", "A">>, <<"A", "B", "C">>, <<"C", "A", "B">>,
@@ -35,8 +39,12 @@ TRequests == { <<a>> : a \in TTokens } \cup { <<a, b>> : a \in TTokens, b \in TT
 T0DirLists == TDirLists
 T0Contents == { Ok("k1", {"x"}, 1), Ok("k1", {"x", "y"}, 1), Ok("k2", {"x"}, 1), Bad("syntax") }
 T0Order    == << "a.json", "b.yaml" >>
+T0Order3   == << "a.json", "b.yaml", "c.json" >>
 T1DirLists == { <<"A", "B">>, <<"B", "A">>, <<"A", "A">> }
 T1Contents == { Ok("k1", {"x"}, 1), Ok("k1", {"y"}, 1), Ok("k1", {"x", "y"}, 1), Bad("syntax"), Bad("dangling") }
+\* quick: one directory (listed once or twice), three Spec names: three-way conflicts, links, a directory named like a Spec
+Q3DirLists == { <<"A">>, <<"A", "A">> }
+Q3Contents == { Ok("k1", {"x"}, 1), Ok("k1", {"x", "y"}, 1), Lnk("k1", {"x"}, 1), Bad("syntax"), Bad("linkdir"), Bad("dirent"), Bad("dangling") }
 T1Order    == << "a.json", "b.yaml", "c.json", "sub" >>
 T2DirLists == { <<"A">> }
 T2Order    == << "U.JSON", "a.json", "n.txt", "noext", "sub", "t.tmp", "x.json.bak" >>
